@@ -5,7 +5,8 @@ writes seeded/MATRIX.md. Usage: tool/seed_matrix.py [seed-id ...]"""
 import json, os, subprocess, sys, tempfile, shutil, re
 V = os.path.dirname(os.path.dirname(os.path.abspath(__file__)))
 seeds = sys.argv[1:] or sorted(d for d in os.listdir(os.path.join(V, 'seeded')) if os.path.isdir(os.path.join(V, 'seeded', d)))
-claimed = set(json.load(open(os.path.join(V, 'units', 'index.json')))['properties'])
+INDEX = json.load(open(os.path.join(V, 'units', 'index.json')))
+claimed = set(INDEX['properties'])
 rows = []
 for sid in seeds:
     sd = os.path.join(V, 'seeded', sid)
@@ -23,9 +24,14 @@ for sid in seeds:
             else:
                 env = dict(os.environ, SYLT_REPO=d)
                 r = subprocess.run([os.path.join(V, 'bin', 'check'), prop, '--no-evidence'], env=env, capture_output=True, text=True)
+                tier = 'quick'
+                if r.returncode == 0 and INDEX['properties'].get(prop, {}).get('thorough_extra'):
+                    # the property has a thorough-tier extra (Kani harness on the real crate): a change the quick tier misses gets the thorough run
+                    r = subprocess.run([os.path.join(V, 'bin', 'check'), prop, '--tier', 'thorough', '--no-evidence'], env=env, capture_output=True, text=True)
+                    tier = 'thorough'
                 obl = re.findall(r'failed obligation: (\S+)', r.stdout)
                 wit = re.findall(r'failing input \(replayed on the real code\): (.*)', r.stdout)
-                st = {0: 'MISSED (check passes)', 1: 'DETECTED', 2: 'INCONCLUSIVE (exit 2, no alarm)'}.get(r.returncode, 'rc=%d' % r.returncode)
+                st = {0: 'MISSED (check passes)', 1: 'DETECTED' + (' (thorough tier)' if tier == 'thorough' else ''), 2: 'INCONCLUSIVE (exit 2, no alarm)'}.get(r.returncode, 'rc=%d' % r.returncode)
                 meta['detected_by'] = {'status': st, 'check': './bin/check %s' % prop, 'obligations': sorted(set(obl)),
                                        'witness': wit[0][:300] if wit else None,
                                        'inconclusive': re.findall(r'INCONCLUSIVE: (.*)', r.stdout)[:3]}
